@@ -604,7 +604,7 @@ fn name_strategy() -> impl Strategy<Value = String> {
     ]
 }
 
-fn case_strategy() -> impl Strategy<Value = Case> {
+pub fn case_strategy() -> impl Strategy<Value = Case> {
     (any::<u16>(), any::<u16>(), name_strategy()).prop_map(|(pi, di, name)| {
         let dialect = DIALECTS[pick_idx(di, 3)];
         let poss: Vec<Pos> = ALL_POS.iter().copied().filter(|p| applicable(*p, dialect)).collect();
